@@ -322,3 +322,78 @@ def effective_owners(facts, d, _seen=None):
     for cd, bi, sp in lib_callers(facts, o):
         out |= effective_owners(facts, cd, _seen | {o})
     return out or {o}
+
+
+def _unnot(a):
+    """bool atom with leading logical negations folded into the polarity"""
+    while a[0] == "bool" and a[1][0] == "un" and a[1][1] == "Not":
+        a = ("bool", a[1][2], not a[2]) + tuple(a[3:])
+    return a
+
+
+def forall_loop(b, target):
+    """On an inlined body: `target` (a block) runs only after a loop `for x in SRC` ran to exhaustion in which every
+    element satisfied a predicate P(x) (an element failing P leaves the loop without reaching `target`) - the shape of
+    `SRC.all(P)` and of a hand-written `for x in SRC { if !P(x) { return false } } true` alike.
+    Returns (rendered SRC, rendered P with the element written `$x`, block of the `next` call) or None."""
+    nexts = {}
+    for bi, t, tm in b.real_calls():
+        if tm[1].endswith("Iterator::next") and len(tm[2]) == 1:
+            nexts[tm] = bi
+    for conj in b.guard(target):
+        for a in conj:
+            if a[0] == "is" and a[2] == frozenset(["None"]) and a[1] in nexts:
+                nt, bn = a[1], nexts[a[1]]
+                heads = {x for x in b.reachable if b.blocks[x]["term"]["t"] == "false_unwind"}
+                # the loop head this `next` belongs to: the closest dominating false_unwind block
+                hs = [h for h in heads if b.dominates(h, bn)]
+                if not hs:
+                    continue
+                head = max(hs, key=lambda h: sum(1 for k in hs if b.dominates(k, h)))
+                elem = mir.mk_proj(nt, ("as:Some", "0"))
+                # entry of the loop body: the Some edge
+                body_entry = None
+                for x in b.reachable:
+                    if b.blocks[x]["term"]["t"] == "switch":
+                        for lab, y in b.succ[x]:
+                            ea = b.edge_atom(x, lab)
+                            if ea[0] == "is" and ea[1] == nt and ea[2] == frozenset(["Some"]):
+                                body_entry = y
+                if body_entry is None:
+                    continue
+                # candidate predicate edges inside the body
+                for x in sorted(b.reachable):
+                    if b.blocks[x]["term"]["t"] != "switch":
+                        continue
+                    edges = [(lab, y, _unnot(b.edge_atom(x, lab))) for lab, y in b.succ[x]]
+                    tr = [(lab, y, ea) for lab, y, ea in edges if ea[0] == "bool" and ea[2] is True and
+                          any(s_ == elem for s_ in mir.subterms(ea[1]))]
+                    fl = [(lab, y, ea) for lab, y, ea in edges if ea[0] == "bool" and ea[2] is False]
+                    if len(tr) != 1 or len(fl) != 1:
+                        continue
+                    # (a) without the P-true edge the loop cannot continue
+                    seen, stack, back = set(), [body_entry], False
+                    while stack:
+                        z = stack.pop()
+                        if z in seen or z == mir.EXIT:
+                            continue
+                        seen.add(z)
+                        for lab, y in b.succ[z]:
+                            if z == x and y == tr[0][1] and lab == tr[0][0]:
+                                continue
+                            if y == head:
+                                back = True
+                            else:
+                                stack.append(y)
+                    if back:
+                        continue
+                    # (b) the target runs only on exhaustion of the loop: every disjunct of its guard carries `next is None`
+                    #     (the failing element's path assigns the opposite boolean and is excluded by the lifted guard)
+                    if not all(any(a2[0] == "is" and a2[1] == nt and a2[2] == frozenset(["None"]) for a2 in c2) for c2 in b.guard(target)):
+                        continue
+                    src = nt[2][0]
+                    if src[0] == "mutated":
+                        src = src[1]
+                    pr = render(mir.subst(tr[0][2][1], lambda q: ("const", "$x", "?") if q == elem else None))
+                    return render(src), pr, bn
+    return None
